@@ -17,7 +17,7 @@
 #include <cstdint>
 #include <vector>
 
-#define VS_MAXT 12
+#define VS_MAXT 24
 
 extern "C" {
   /// explicit scheduling point in harness-owned code
